@@ -116,6 +116,7 @@ def _(c):
         st = mk_motion_state(b)
         h = mk_handlers(b, st)
         g = {"P": mk_printer(b)}
+        b.spy(g, h, "_handle_G0")
         return {"self": h, "args": {"cmd": b.gcode_command("cmd", code="G1"), "gcode": "G1", "subcode": None}, "ghost": g}
     c.pre(pre)
     c.requires("Inv", lambda f: inv_all(f.self.state, f.g["P"]))
@@ -301,8 +302,10 @@ REGISTRY.get(H + "_handle_G2").summary(handler_summary("_handle_G2")).use_modula
 def _(c):
     def pre(b):
         st = mk_motion_state(b)
-        return {"self": mk_handlers(b, st), "args": {"cmd": b.gcode_command("cmd", code="G3"), "gcode": "G3", "subcode": None},
-                "ghost": {"P": mk_printer(b)}}
+        h = mk_handlers(b, st)
+        g = {"P": mk_printer(b)}
+        b.spy(g, h, "_handle_G2")
+        return {"self": h, "args": {"cmd": b.gcode_command("cmd", code="G3"), "gcode": "G3", "subcode": None}, "ghost": g}
     c.pre(pre)
     c.requires("Inv", lambda f: inv_all(f.self.state, f.g["P"]))
     c.requires("I-E", lambda f: inv_e(f.self.state, f.g["P"]))
@@ -612,6 +615,12 @@ def _(c):
 
     def dispatch(f):
         cs = calls(f)
+        if getattr(f, "native", False) and cs:
+            # the native spies also see the handlers' own delegation (G1 -> G0, G3 -> G2), logged at return: the call
+            # made by handleGcode itself is the one that returned last
+            nested = {"_handle_G1": "_handle_G0", "_handle_G3": "_handle_G2"}
+            if len(cs) == 2 and nested.get(cs[-1][0]) == cs[0][0]:
+                cs = cs[-1:]
         if len(cs) != 1:
             return False
         name, a, tok = cs[0]
